@@ -192,6 +192,25 @@ class A(Adapter):
             return "all_cities_visited"
         return None
 
+    # ---- reach probes ----------------------------------------------------------------------------
+    def events(self, ps, action, s, ts, env, cfg):
+        n = int(np.asarray(s.trajectory).shape[0])
+        if ps is None:
+            return (["reset_two_cities"] if n == 2 else []) + (["reset_sparse_reward"] if cfg.get("rew") == "sparse" else [])
+        a, route = int(action), self._route(ps)
+        if a in route:
+            return ["end_invalid_city_revisited"] + (["invalid_reselects_current_city"] if a == route[-1] else []) \
+                + (["invalid_reselects_start_city"] if a == route[0] and len(route) > 1 else []) \
+                + (["invalid_with_one_city_left"] if len(route) == n - 1 else [])
+        ev = []
+        if not route:
+            ev.append("first_city_chosen")
+        if len(route) + 1 == n:
+            ev.append("end_last_city_tour_complete")
+        elif len(route) + 2 == n:
+            ev.append("one_city_left")
+        return ev
+
     # ---- C12 -----------------------------------------------------------------------------------
     def observe(self, s, obs, env, cfg):
         if not np.array_equal(np.asarray(obs.coordinates), np.asarray(s.coordinates)):
